@@ -471,10 +471,8 @@ impl Cnf {
         for i in 0..self.num_vars() {
             weight_vec.push(weights.var_weight(VarLabel::new(i as u64)));
         }
+        // a CNF over zero variables has exactly one (empty) assignment
         for assgn in AssignmentIter::new(self.num_vars()) {
-            if assgn.is_empty() {
-                break;
-            };
             if self.eval(&assgn) {
                 let assgn_w = assgn
                     .iter()
